@@ -866,3 +866,98 @@ def _reschedule(sc):
     for cid in sorted(need):
         out.extend([cid] * need[cid])
     return out
+
+
+# ---------------------------------------------------------------------------
+# exhaustive abort-point enumeration on small items (thorough tier, C12)
+# ---------------------------------------------------------------------------
+
+def enum_item(item_seed):
+    rng = rng_for("abort-enum-item", item_seed)
+    return gen_mol.build_item(rng, kind=rng.choice(["atomistic", "atomistic", "coarse"]), size=rng.randint(3, 8),
+                              n_leaves=rng.randint(2, 3), mid_levels=rng.choice([0, 1]))
+
+
+def enum_scenario(item, k, which):
+    """The same experiment as an ordinary resolver scenario (used as replay file)."""
+    if which == "resolve_all":
+        script = [{"op": "construct", "ctor": "dicts", "perm": False, "item": 0}, {"op": "resolve_all", "abort_at": k}, {"op": "drop"},
+                  {"op": "construct", "ctor": "dicts", "perm": False, "item": 0}, {"op": "resolve_all"}, {"op": "drop"}]
+        role = "resolver"
+    else:
+        level = item["n_levels"] - 1
+        script = [{"op": "grow", "level": level, "all_atom": item["last_all_atom"],
+                   "block": _grow_block(item), "new": ["GNEW1", "GNEW2"], "abort_at": k}]
+        role = "grower"
+    clients = [{"id": 0, "role": role, "item": 0, "lib": "L0", "script": script}]
+    if which != "resolve_all":
+        clients.append({"id": 1, "role": "resolver", "item": 0, "lib": "L0",
+                        "script": [{"op": "construct", "ctor": "dicts", "perm": False, "item": 0}, {"op": "resolve_all"}, {"op": "drop"}]})
+    schedule = [c["id"] for c in clients for _ in c["script"]]
+    return {"family": "resolver", "prop": "C12", "run_seed": H("enum", item["multi"], k, which), "items": [item],
+            "libs": [{"id": "L0", "item": 0, "perm": False}], "clients": clients, "schedule": schedule, "style": "serial",
+            "faults_enabled": ["abort"], "enum": {"k": k, "which": which}}
+
+
+def _grow_block(item):
+    if item["last_all_atom"]:
+        return "{#GNEW1=[$]CC(=O)O[$],#GNEW2=[>]c1ccccc1C[<]}"
+    return "{#GNEW1=[$][#X1][#X2]1[#X3][#X4]1[$],#GNEW2=[>][#Y1]=[#Y2][<]}"
+
+
+def enum_probe(item):
+    """Line counts of the enumerated ops on a pristine process + reference digest."""
+    from cgsmiles.resolve import MoleculeResolver
+    from cgsmiles.read_fragments import read_fragments
+    from .seams import AbortInjector
+    from . import admit
+    reason = admit.admit(item)
+    if reason:
+        return {"rejected": reason}
+    lib = MoleculeResolver.read_fragment_strings(list(item["blocks"]), last_all_atom=item["last_all_atom"])
+    res = MoleculeResolver.from_fragment_dicts(item["base"], lib, last_all_atom=item["last_all_atom"])
+    with AbortInjector(0) as inj:
+        coarse, fine = res.resolve_all()
+    lines_resolve = inj.count
+    with AbortInjector(0) as inj:
+        read_fragments(_grow_block(item), all_atom=item["last_all_atom"], fragment_dict=lib[-1])
+    return {"resolve_all": lines_resolve, "grow": inj.count, "ref": [digest(coarse), digest(fine)]}
+
+
+def enum_points(item, which, ks, ref):
+    """
+    For every k: pristine fork, shared library, abort the op at the k-th cgsmiles
+    line, then (1) the library must be byte-identical to its snapshot (grown
+    names: absent or complete), (2) a fresh resolver over the same library must
+    give the reference result. Returns the list of failing k with details.
+    """
+    from .procs import fork_call
+    failures = []
+    fired = 0
+    landing = {}
+    for k in ks:
+        out = fork_call(_enum_point, (item, which, k, ref), timeout=120)
+        if out["fired"]:
+            fired += 1
+            landing[out["where"]] = landing.get(out["where"], 0) + 1
+        if out["violations"]:
+            failures.append({"k": k, "violations": out["violations"]})
+    return {"points": len(ks), "fired": fired, "failures": failures, "landing": landing}
+
+
+def _enum_point(item, which, k, ref):
+    sc = enum_scenario(item, k, which)
+    sc["finalised"] = True
+    if which != "resolve_all":
+        sc["clients"][0]["script"][0]["expect"] = grow_expectations(sc["clients"][0]["script"][0])
+    out = run_scenario(sc, None)
+    violations = list(out["violations"])
+    last = [e for e in out["events"] if e["op"] == "resolve_all" and not e.get("armed")]
+    if not last or last[-1].get("out") != "ok" or last[-1].get("dig") != ref:
+        violations.append({"oracle": "C12.same-input C12.library", "event": None,
+                           "detail": "after an abort at line %d of %s a fresh resolver over the same library gave %r, reference %r"
+                                     % (k, which, last[-1].get("dig") if last else None, ref)})
+    armed = [e for e in out["events"] if e.get("armed")]
+    fired = bool(armed and armed[0].get("fired"))
+    where = armed[0]["out"].split("@")[1] if fired else None
+    return {"fired": fired, "where": where, "violations": violations}
